@@ -473,10 +473,27 @@ def apply_op(obj, model, op, arg):
         if model["bonds"] is not None:
             new["bonds"] = {(x + r * n, y + r * n): t for r in range(k) for (x, y), t in model["bonds"].items()}
         return res, new
+    if op == 10:                     # overwrite an annotation by a narrower array, then write a wider value
+        if n == 0:
+            return obj, model
+        new = m_copy(model)
+        k = arg % n
+        if arg % 2 == 0:
+            obj.atom_name = np.array(["X"] * n)            # one-character strings over 'N', 'CA', 'C'
+            obj.atom_name[k] = "CA"
+            new["annot"]["atom_name"] = ["X"] * n
+            new["annot"]["atom_name"][k] = "CA"
+        else:
+            obj.set_annotation("tag", np.array([0.5 * q for q in range(n)]))     # floats, then integers over them
+            obj.set_annotation("tag", np.arange(n))
+            obj.tag[k] = 2.25
+            new["annot"]["tag"] = [float(q) for q in range(n)]
+            new["annot"]["tag"][k] = 2.25
+        return obj, new
     return obj, model
 
 
-NOPS = 10
+NOPS = 11
 
 
 def run_history(kind, with_bonds, with_box, ops):
